@@ -45,7 +45,7 @@ def compute(spec, kw):
     outs = []
     for j, (name, dims) in enumerate(spec["vars"]):
         shape = tuple(spec["sizes"][d] for d in dims)
-        outs.append(var_value(kw, j, shape))
+        outs.append(var_value(kw, j, shape) + spec.get("epoch", 0))
     ret = spec["ret"]
     if ret == "single":
         return outs[0]
@@ -140,7 +140,8 @@ def check_dataset(ds, *, spec, fn_args, coords, requested, fn_kwargs_extra,
                 full = dict(kw)
                 full.update(fn_kwargs_extra)
                 shape = tuple(spec["sizes"][d] for d in dims)
-                want = np.asarray(var_value(full, j, shape), dtype=float)
+                want = np.asarray(var_value(full, j, shape), dtype=float) \
+                    + spec.get("epoch", 0)
                 ok = got.shape == want.shape and np.array_equal(
                     got.astype(float), want)
                 require(ok, "value-at-label",
@@ -219,7 +220,7 @@ def check_dataframe(df, *, spec, fn_args, settings, fn_kwargs_extra,
         full = dict(kw)
         full.update(fn_kwargs_extra)
         for j, name in enumerate(names):
-            want = var_value(full, j, ())
+            want = var_value(full, j, ()) + spec.get("epoch", 0)
             got = row[name]
             require(float(got) == want, "row-mispaired",
                     lambda: f"{tag}: row {i} has arguments {kw} with "
